@@ -1,7 +1,7 @@
 (* C03 - lexical scoping, closures and one-time defaults.  Statements only.
    [Extracted.Idents] is regenerated from the Rust source on every run. *)
 From Coq Require Import List ZArith NArith String.
-From Xr Require Import Base.Res Base.Show Lang.Syntax Lang.Eval Lang.Ident Extracted.Idents.
+From Xr Require Import Base.Res Base.Show Lang.Syntax Lang.Eval Lang.Ident Extracted.Idents Lang.Cells.
 Import ListNotations.
 Open Scope string_scope.
 
@@ -37,7 +37,41 @@ Example C03_lexical_closed_instances :
   run_program 200 nolimits prog ["main"] = "(1, 2, 15, 42, 42, 7)|42|7".
 Proof. vm_compute. reflexivity. Qed.
 
+(* captured variables are addressed by (ancestor depth, cell index) pairs; closing a function's scope re-threads every capture
+   that reaches beyond the parent through a new cell of the parent (Lang/Cells.v, model of into_static_ud).  For EVERY nest of
+   scopes - any depth, any number and arrangement of captures - closing all scopes, innermost first, leaves what every cell of
+   every scope denotes (which variable cell of which ancestor) unchanged, and closed non-root scopes use depth 1 only *)
+Theorem C03_rethreading_preserves_denotation : forall st k j r,
+  (k < List.length st)%nat -> walk (skipn k st) 0 j = Some r -> walk (skipn k (close_all st)) 0 j = Some r.
+Proof. exact close_all_preserves_every_scope. Qed.
+Theorem C03_closed_captures_have_depth_one : forall st sc c,
+  In sc (removelast (close_all st)) -> In c sc -> c = CVar \/ exists ci, c = CCap 0 ci \/ c = CCap 1 ci.
+Proof. intros st sc c. apply closed_depth_one. apply le_n. Qed.
+(* one step: the child's cells denote the same, the parent's old cells are untouched (it only grows) *)
+Theorem C03_rethreading_one_scope : forall child parent specs parent' rest i r,
+  fin child parent = (specs, parent') ->
+  (exists e, parent' = (parent ++ e)%list) /\
+  (walk (child :: parent :: rest) 0 i = Some r -> walk (specs :: parent' :: rest) 0 i = Some r).
+Proof.
+  intros child parent specs parent' rest i r H. destruct (fin_spec _ _ _ _ H) as (He & _ & _ & Hn). split; [exact He|].
+  cbn [walk]. destruct (nth_error child i) as [c|] eqn:E; [|discriminate].
+  destruct (Hn rest i c E) as (c' & -> & Hm). destruct c as [|[|d] ci]; [subst; auto|subst; auto|].
+  destruct Hm as (pi & -> & Hw). exact (Hw r).
+Qed.
+(* a nest four deep: the innermost function uses a root variable, a variable two scopes up twice, and its parent's parameter *)
+Example C03_cells_nonvacuous :
+  let st := [[CVar; CCap 3 0; CCap 2 1; CCap 2 1; CCap 1 0]; [CVar; CCap 1 0]; [CVar; CVar]; [CVar]] in
+  close_all st = [[CVar; CCap 1 2; CCap 1 3; CCap 1 4; CCap 1 0]; [CVar; CCap 1 0; CCap 1 2; CCap 1 1; CCap 1 1];
+                  [CVar; CVar; CCap 1 0]; [CVar]] /\
+  map (walk (close_all st) 0) [0; 1; 2; 3; 4] = [Some (3, 0); Some (0, 0); Some (1, 1); Some (1, 1); Some (2, 0)] /\
+  map (walk st 0) [0; 1; 2; 3; 4] = map (walk (close_all st) 0) [0; 1; 2; 3; 4].
+Proof. vm_compute. repeat split; reflexivity. Qed.
+
 Print Assumptions C03_intern_injective.
 Print Assumptions C03_interner_pattern.
 Print Assumptions C03_intern_examples.
 Print Assumptions C03_lexical_closed_instances.
+Print Assumptions C03_rethreading_preserves_denotation.
+Print Assumptions C03_closed_captures_have_depth_one.
+Print Assumptions C03_rethreading_one_scope.
+Print Assumptions C03_cells_nonvacuous.
